@@ -144,6 +144,9 @@ func genCase(r *Rng, idx int, thorough bool) (*Case, error) {
 }
 
 func joinMax(xs []string, max int) string {
+	if os.Getenv("C04_FULL") != "" {
+		max = 1 << 20
+	}
 	if len(xs) > max {
 		return strings.Join(xs[:max], "\n") + fmt.Sprintf("\n... (%d more)", len(xs)-max)
 	}
@@ -191,6 +194,21 @@ func lostAndExtra(c *Case, base, got []string) (lost, extra string) {
 	return classOf(ls), classOf(es)
 }
 
+// baseline1 runs src over the in-memory values in a fresh context (types
+// translated, bodies shared: they are context independent).
+func baseline1(vals []zed.Value, src string, timeout time.Duration) ([]string, error) {
+	zctx := zed.NewContext()
+	vals2 := make([]zed.Value, len(vals))
+	for i, v := range vals {
+		t, err := zctx.TranslateType(v.Type())
+		if err != nil {
+			return nil, fmt.Errorf("OPEN: translate: %w", err)
+		}
+		vals2[i] = zed.NewValue(t, v.Bytes())
+	}
+	return runOver(src, zctx, zbuf.NewArray(vals2), timeout)
+}
+
 func runCase(c *Case) *caseOut {
 	out := &caseOut{counts: map[string]int{}}
 	var vals []zed.Value
@@ -200,16 +218,7 @@ func runCase(c *Case) *caseOut {
 	// the baseline runs over the in-memory values in a fresh context per program
 	// (types translated, bodies shared: they are context independent)
 	baseline := func(src string) ([]string, error) {
-		zctx := zed.NewContext()
-		vals2 := make([]zed.Value, len(vals))
-		for i, v := range vals {
-			t, err := zctx.TranslateType(v.Type())
-			if err != nil {
-				return nil, fmt.Errorf("OPEN: translate: %w", err)
-			}
-			vals2[i] = zed.NewValue(t, v.Bytes())
-		}
-		return runOver(src, zctx, zbuf.NewArray(vals2))
+		return withHangRetry(func(timeout time.Duration) ([]string, error) { return baseline1(vals, src, timeout) })
 	}
 	hasTV := false
 	for _, v := range vals {
@@ -217,6 +226,24 @@ func runCase(c *Case) *caseOut {
 			hasTV = true
 			break
 		}
+	}
+	hasEnum := false
+	for _, v := range vals {
+		if containsEnum(v.Type()) {
+			hasEnum = true
+			break
+		}
+	}
+	// encClass names the encoding in failure signatures; VNG input holding enum
+	// values is its own class (the VNG reader types them in a foreign context)
+	encClass := func(e Enc) string {
+		if e.Kind == "vng" && hasEnum {
+			if e.Any {
+				return "vng+enum+any"
+			}
+			return "vng+enum"
+		}
+		return e.Class()
 	}
 	inputCanon := make([]string, len(vals))
 	for i, v := range vals {
@@ -259,7 +286,7 @@ func runCase(c *Case) *caseOut {
 				obs = "error: " + err.Error()
 			}
 			out.fails = append(out.fails, Failure{
-				Kind: "oracle", Sig: fmt.Sprintf("roundtrip:%s:%s:lost=%s:extra=%s", e.Class(), errClass(err), lost, extra),
+				Kind: "oracle", Sig: fmt.Sprintf("roundtrip:%s:%s:lost=%s:extra=%s", encClass(e), errClass(err), lost, extra),
 				Detail:   fmt.Sprintf("case %d: reading the sequence back through %s does not give the values written (first difference: %s)", c.idx, e, firstDiff(inputCanon, got)),
 				Replay:   replayOf(c, "pass", e),
 				Expected: joinMax(inputCanon, 6), Observed: obs,
@@ -359,7 +386,7 @@ func runCase(c *Case) *caseOut {
 			}
 			out.fails = append(out.fails, Failure{
 				Kind: "oracle",
-				Sig:  fmt.Sprintf("diff:%s:%s:%s:%s:lost=%s:extra=%s", ed.e.Class(), p.FClass, tclass, errClass(err), lost, extra),
+				Sig:  fmt.Sprintf("diff:%s:%s:%s:%s:lost=%s:extra=%s", encClass(ed.e), p.FClass, tclass, errClass(err), lost, extra),
 				Detail: fmt.Sprintf("case %d: program %q gives %d values over the in-memory sequence but %d over %s (first difference: %s)",
 					c.idx, src, len(base), len(got), ed.e, firstDiff(base, got)),
 				Replay:   replayOf(c, src, ed.e),
@@ -414,11 +441,9 @@ func replayOf(c *Case, src string, e Enc) any {
 
 func c04(o Opts) error {
 	res := NewResult("C04")
-	// hx.NewRng(k) is the same splitmix stream started k steps later, so runs with
-	// nearby seeds fall into lockstep; spread the seeds over the stream first.
-	rng := NewRng((o.Seed+0xC04)*0xD6E8FEB86659FD93 ^ (o.Seed >> 7))
+	rng := NewRng(o.Seed)
 	thorough := o.Tier == "thorough"
-	ncases := 44
+	ncases := 120
 	if thorough {
 		ncases = 1000
 	}
@@ -486,7 +511,7 @@ func c04(o Opts) error {
 		mo.merge(out.model)
 	}
 	// model correspondence: buffer filter compilation/evaluation, evaluator, stringsearch
-	nbf := 120
+	nbf := 200
 	if thorough {
 		nbf = 700
 	}
